@@ -363,3 +363,74 @@ class C16(Spec):
 
     def nontrivial(self, case, res):
         return res.info.get('probes', {}).get('keys_checked', 0) > 0
+
+
+from .families import iofam  # noqa: E402
+
+
+@_register
+class C07(Spec):
+    check_id = 'C07'
+    family = 'io'
+    title = 'input, output and transfer reach exactly the designated parties'
+    technique = 'deterministic simulation; expectation computed from the sender/receiver graph alone'
+    quick = {'runs': 3000, 'wall': 75}
+    thorough = {'runs': 500000, 'wall': 900}
+    expected_probes = ('transfer', 'input', 'output', 'open')
+
+    def make_case(self, seed, tier):
+        rng = random.Random(f'C07/{seed}')
+        cfg = sample_cfg(rng, tier)
+        prog = iofam.gen(rng, cfg, tier)
+        return {'family': 'io', 'cfg': cfg.to_json(), 'prog': prog, 'seed': seed,
+                'start_delays': sample_start_delays(rng, cfg.m)}
+
+
+@_register
+class C19(Spec):
+    check_id = 'C19'
+    family = 'io'
+    title = 'parties outside the receivers learn nothing from an output'
+    technique = ('deterministic simulation: the operation runs alone between two global quiescence points of the virtual '
+                 'clock; the simulated network counts bytes written to every party in that window')
+    quick = {'runs': 3000, 'wall': 75}
+    thorough = {'runs': 500000, 'wall': 900}
+    expected_probes = ('window_ops', 'non_receivers_checked', 'window_traffic_seen')
+
+    def make_case(self, seed, tier):
+        rng = random.Random(f'C19/{seed}')
+        cfg = sample_cfg(rng, tier, m_min=2)
+        prog = iofam.gen_window(rng, cfg, tier)
+        return {'family': 'io', 'cfg': cfg.to_json(), 'prog': prog, 'seed': seed}
+
+    def monitors(self, case):
+        return [M.WindowMonitor(), WindowJudge()]
+
+    def nontrivial(self, case, res):
+        return res.info.get('probes', {}).get('non_receivers_checked', 0) > 0
+
+
+class WindowJudge:
+    def finish(self, w, res):
+        tr = res.info.get('window_traffic')
+        pr = res.info.setdefault('probes', {})
+        if tr is None or w.outcome != 'ok':
+            return
+        case_prog = None
+        for p in w.parties:
+            case_prog = p.obs.get('prog')
+        prog = w.case_prog
+        targets = iofam.window_targets(prog, w.cfg)
+        pr['window_ops'] = 1
+        pr['window_traffic_seen'] = int(bool(tr))
+        for x in range(w.cfg.m):
+            if x in targets:
+                continue
+            pr['non_receivers_checked'] = pr.get('non_receivers_checked', 0) + 1
+            got = {k: v for k, v in tr.items() if k[1] == x}
+            if got:
+                op = prog['ops'][prog['window_op']]
+                res.violations.append(('invariant:non-receiver-traffic',
+                                       f"party {x} is no receiver of {op['k']} {iofam._brief(op)} but was sent "
+                                       f"{sum(got.values())} bytes during it: {sorted(got.items())}"))
+                return
